@@ -2,7 +2,7 @@
 //! explorer and differ in alphabet and monitors.
 
 use crate::cfg::{Cfg, Degree, Interp, Kernel, Kind};
-use crate::explore::{explore, Alpha, Outcome, Spec};
+use crate::explore::{explore, Alpha, Outcome, Spec, Sys};
 use crate::frame::{Check, JournalFile, Tier};
 use crate::ops::{history_parse, history_text, Op};
 use crate::run::Signal;
@@ -473,7 +473,8 @@ pub fn items(tier: Tier, id: &str) -> Vec<Item> {
         // FFT blocks of several thousand points: filter construction and normalisation carried
         // out in the sample type
         let mut cfgs = Vec::new();
-        for (a, b, chunk) in [(44100usize, 48000usize, 4096usize), (48000, 44100, 4096), (44100, 192000, 2048), (48000, 16000, 6000)] {
+        // (and of tens of thousands: whatever is dimensioned in bytes depends on the sample type)
+        for (a, b, chunk) in [(44100usize, 48000usize, 4096usize), (48000, 44100, 4096), (44100, 192000, 2048), (48000, 16000, 6000), (44100, 48000, 18816), (48000, 44100, 40000)] {
             for kind in [Kind::XI, Kind::XO, Kind::XX] {
                 cfgs.push(Cfg::fft(kind, a, b, chunk, 1));
             }
@@ -528,10 +529,13 @@ pub fn spec_for(id: &str, tier: Tier, cfg: &Cfg) -> Spec {
     let horizon = if huge { [3, 1, 1, 1] } else { horizon };
     let bound = if huge { if q { 0 } else { 1 } } else { bound };
     let wide = cfg.kind.is_async() && (cfg.max_rel == 12.0 || cfg.max_rel == 16.0 || cfg.max_rel == 32.0);
+    // FFT blocks of tens of thousands of points: a few calls, the ratio alphabet
+    let big_fft = cfg.kind.is_fft() && cfg.chunk >= 10_000 && !huge;
+    let horizon = if big_fft { [6, 2, 1, 1] } else { horizon };
     let light = cfg.kind.is_async() && (cfg.max_rel == 3.0 || cfg.max_rel == 5.0 || wide);
     let horizon = if light { [4, 2, 2, 2] } else { horizon };
     let bound = if wide { 2 } else if light { 1 } else { bound };
-    let alpha = if big || light { Alpha::Ratio } else { alpha };
+    let alpha = if big || light || big_fft { Alpha::Ratio } else { alpha };
     let alpha_deep = if big || light { Alpha::Ratio } else { alpha_deep };
     let signal = if id == "C10" || id == "C17" {
         Signal::Noise
@@ -603,6 +607,82 @@ fn outcome_json(cfg: &Cfg, o: &Outcome, ty: &str) -> Value {
         })).collect::<Vec<_>>(),
         "samples": o.samples.iter().map(|s| json!({"cfg": cfg.short(), "history": s})).collect::<Vec<_>>(),
     })
+}
+
+/// C09: short cycles of operations repeated many times (bookkeeping that grows by one entry per
+/// cycle - a list that a reset forgets to clear, a counter that only ever rises - outgrows what
+/// was reserved at construction only after several rounds; two or three deviations never get
+/// there). Every call of every round is monitored for heap traffic.
+fn cycles_item(journal: Option<&JournalFile>) -> Result<Value, String> {
+    let mut cfgs: Vec<Cfg> = Vec::new();
+    for ch in [2usize, 3] {
+        cfgs.push(Cfg::sinc(Kind::SI, 0.8, 2.0, 8, 8, 2, Interp::Cubic, Kernel::Dispatch).with_channels(ch));
+        cfgs.push(Cfg::sinc(Kind::SO, 0.8, 2.0, 8, 8, 2, Interp::Linear, Kernel::Dispatch).with_channels(ch));
+        cfgs.push(Cfg::fast(Kind::FI, 0.8, 2.0, 8, Degree::Cubic).with_channels(ch));
+        cfgs.push(Cfg::fast(Kind::FO, 0.8, 2.0, 8, Degree::Cubic).with_channels(ch));
+        cfgs.push(Cfg::fft(Kind::XI, 3, 2, 10, 2).with_channels(ch));
+        cfgs.push(Cfg::fft(Kind::XO, 2, 3, 10, 2).with_channels(ch));
+        cfgs.push(Cfg::fft(Kind::XX, 3, 2, 12, 1).with_channels(ch));
+    }
+    let rounds = 12;
+    let (mut states, mut transitions) = (0u64, 0u64);
+    let mut found: Vec<Value> = Vec::new();
+    let mut outcomes: std::collections::BTreeSet<String> = Default::default();
+    for cfg in &cfgs {
+        let all = (1u32 << cfg.channels) - 1;
+        let mut cycles: Vec<Vec<Op>> = vec![
+            vec![Op::PM(all & !2, true), Op::Z],
+            vec![Op::PM(0, true), Op::Z],
+            vec![Op::PM(1, false), Op::Z, Op::P],
+            vec![Op::PM(all & !1, true), Op::P],
+            vec![Op::PM(1, true), Op::PM(all & !1, false)],
+            vec![Op::PP(Some(1)), Op::Z],
+            vec![Op::PP(None), Op::P],
+            vec![Op::P, Op::Z],
+            vec![Op::Bad(crate::ops::Bad::InShort(0, 1)), Op::P],
+            vec![Op::Bad(crate::ops::Bad::MaskLen(1)), Op::PM(1, true), Op::Z],
+        ];
+        if cfg.kind.is_async() {
+            cycles.push(vec![Op::R(2.0, true), Op::P, Op::Z]);
+            cycles.push(vec![Op::R(2.0, true), Op::R(0.5, false), Op::P]);
+            cycles.push(vec![Op::R(0.5, true), Op::PM(1, true), Op::R(1.0, false), Op::P]);
+        }
+        if cfg.kind.is_sinc() {
+            cycles.push(vec![Op::C(3), Op::P, Op::C(8), Op::P]);
+            cycles.push(vec![Op::C(1), Op::Z, Op::P]);
+        }
+        for cyc in &cycles {
+            let mut t = Tracked::<f64>::new(cfg, Signal::Noise, Props::only("C09"))?;
+            let mut hist: Vec<Op> = Vec::new();
+            states += 1;
+            'rounds: for _ in 0..rounds {
+                for op in cyc {
+                    if let Some(j) = journal {
+                        let mut h = hist.clone();
+                        h.push(*op);
+                        j.write(&cfg.to_json(), &history_text(&h));
+                    }
+                    let (obs, viols) = t.step(*op, true);
+                    hist.push(*op);
+                    transitions += 1;
+                    outcomes.insert(format!("{}:{}:{}", cfg.kind.name(), op.text().split('(').next().unwrap_or(""), obs.res.text().split('(').next().unwrap_or("")));
+                    for v in viols {
+                        if v.prop == "C09" && found.len() < 40 {
+                            found.push(json!({"prop": "C09", "sig": v.sig, "detail": v.detail, "cfg": cfg.to_json(), "history": history_text(&hist), "sample_type": "f64"}));
+                        }
+                    }
+                    if t.dead() || !found.is_empty() && found.len() % 4 == 0 {
+                        break 'rounds;
+                    }
+                }
+            }
+        }
+    }
+    Ok(json!({
+        "label": "repeated cycles", "states": states, "transitions": transitions,
+        "outcomes": outcomes.iter().collect::<Vec<_>>(), "found": found,
+        "samples": [{"cycles": "13-15 cycles of 2-4 operations (masked call + reset, partial call + reset, rejected call + call, ramp + reset, chunk size down and up ...) x 12 rounds x 14 configurations (all seven types, 2 and 3 channels)"}],
+    }))
 }
 
 /// Control must not depend on sample values: the same history on two different signals must
@@ -704,10 +784,13 @@ impl Check for CtrlCheck {
         "E1 explicit-state deviation-bounded exploration of call histories on the real resampler objects"
     }
     fn n_items(&self, tier: Tier) -> usize {
-        items(tier, self.id).len() + if self.id == "C13" { 1 } else { 0 }
+        items(tier, self.id).len() + if self.id == "C13" || self.id == "C09" { 1 } else { 0 }
     }
     fn run_item(&self, tier: Tier, idx: usize, journal: Option<&JournalFile>) -> Result<Value, String> {
         let all = items(tier, self.id);
+        if self.id == "C09" && idx == all.len() {
+            return cycles_item(journal);
+        }
         if self.id == "C13" && idx == all.len() {
             let (n1, mut f1, mut o1) = crate::ctor::run::<f64>("f64");
             let (n2, f2, o2) = crate::ctor::run::<f32>("f32");
@@ -798,6 +881,26 @@ impl Check for CtrlCheck {
         let ncfg: usize = its.iter().map(|i| i.cfgs.len()).sum();
         cov.insert("configurations".into(), json!(ncfg));
         cov.insert("deviation_bound_completed".into(), json!(if tier == Tier::Quick { "2 on closing configurations with chunk <= 8 (second layer: ratio/chunk/reset alphabet), 1 elsewhere" } else { "2 on closing configurations with chunk <= 8 (full alphabet in both layers), 1 elsewhere" }));
+        cov.insert("deviation_bound_exceptions".into(), json!("3 on 1-frame-chunk closing configurations with filters <= 8 taps and range <= 2 (thorough); 2 on ranges 12/16/32 around whole-number steps; 1 with the ratio alphabet on range-3/5 sweeps and on chunks >= 200; FFT chunks above 2^24 frames: three default calls (quick), one deviation (thorough)"));
+        let id = self.id;
+        let mut subs: Vec<&str> = vec!["main lattice: ratio x max relative ratio x chunk x (sinc length, oversampling, interpolation, kernel | degree), FFT rate pairs x chunk x sub-chunks (chunk < sub-chunks included)"];
+        let on = |ids: &[&str]| ids.contains(&id);
+        if on(&["C10", "C17"]) { subs.push("ratios one and two ulp next to 1, 0.5, 2, 0.25 (chunk/ratio within rounding distance of an integer)"); }
+        if on(&["C13", "C11", "C03"]) { subs.push("three-channel configurations of all types"); }
+        if on(&["C10", "C03", "C06", "C04"]) { subs.push("odd-length custom interpolators (9, 15, 33 taps); probe-kernel chunks of 4096 frames"); }
+        if on(&["C03", "C04"]) { subs.push("FFT chunks above 2^24 frames; positions beyond 2^31 sub-filter steps (70 000-frame chunks x 32 768 sub-filters); (chunk, ratio, range) sweep 1..64 x 5 x {3,5}"); }
+        if on(&["C09", "C13"]) { subs.push("24-channel configurations with fragmented masks"); }
+        if on(&["C09"]) { subs.push("buffers of several hundred kilobytes; large audio configurations (both tiers)"); }
+        if on(&["C10", "C13"]) { subs.push("large audio configurations (thorough)"); }
+        if on(&["C17", "C03", "C04"]) { subs.push("4096-frame chunks on a 256-fold grid, all interpolations and degrees"); }
+        if on(&["C03", "C04", "C09", "C10"]) { subs.push("narrow ranges (1.02..1.2) x chunk 1..16, 480, 1024"); }
+        if on(&["C10", "C04", "C03", "C13"]) { subs.push("37 (chunk, ratio) pairs with a whole-number quotient"); }
+        if on(&["C04", "C03", "C06"]) { subs.push("ranges 12/16/32 around ratios 1.0 and 0.5"); }
+        if on(&["C09", "C03"]) { subs.push("explicitly selected kernels (scalar, SSE, AVX)"); }
+        if on(&["C17"]) { subs.push("long filters with oversampling 160/100/3; filters of 1536..2560 taps on explicit kernels; other windows; FFT blocks of thousands of points; every exploration repeated on a signal of peak 2^-26 for FFT types, chunks >= 1024 and every eighth other configuration"); }
+        if on(&["C03"]) { subs.push("the exploration repeated with NaN samples in the last channel (FFT types and chunk-8 configurations); data-independence audit per configuration; a panicking constructor is a finding"); }
+        if on(&["C13"]) { subs.push("constructor argument menu incl. new_with_interpolator"); }
+        cov.insert("sub_lattices".into(), json!(subs));
         let mut per_kind: std::collections::BTreeMap<String, (u64, u64)> = Default::default();
         for v in items_v {
             let label = v["label"].as_str().unwrap_or("?");
